@@ -165,10 +165,13 @@ def secpEncode : WPoint (Fp Params.secpP) → List Nat
   | none => List.replicate 33 0
   | some (x, y) => (if y.isOdd then 3 else 2) :: natToBe 32 x.v
 
+/-- `AffinePoint::from_bytes` of `k256` on the 33-byte `CompressedPoint`: besides the SEC1 tags
+`02`/`03` the `sec1` crate also parses tag `05` ("compact": x only) at this length, which
+`k256` decompacts with the even `y`. -/
 def secpDecode (bs : List Nat) : Option (WPoint (Fp Params.secpP)) :=
   if allZero bs then some none else
   let tag := bs.headD 0
-  if tag ≠ 2 ∧ tag ≠ 3 then none else
+  if tag ≠ 2 ∧ tag ≠ 3 ∧ tag ≠ 5 then none else
   let xv := beToNat (bs.drop 1)
   if xv ≥ Params.secpP then none else
   let x : Fp Params.secpP := ⟨xv⟩
